@@ -90,6 +90,8 @@ enum OpJ {
     RecCancel { key: KeyJ, oid: Option<u32> },
     Snap { o: OrdJ },
     CancelResp { key: KeyJ, ok: bool, oid: u32, t: i64, err: u8 },
+    /// persist / restore: serialise the state to JSON, deserialise it, continue on the result
+    Persist {},
 }
 #[derive(Serialize, Deserialize, Clone, Debug, PartialEq)]
 struct ISnapJ {
@@ -426,6 +428,7 @@ fn coq_op(op: &OpJ) -> String {
         OpJ::CancelResp { key, ok, .. } => {
             format!("CancelResp {} {}", coq_key_real(&real_key(key)), b(*ok))
         }
+        OpJ::Persist {} => unreachable!("persist steps are printed by the run loop"),
     }
 }
 fn coq_eop(x: &EopJ) -> String {
@@ -483,6 +486,7 @@ fn cmp_class(cur: Option<&ActiveOrder>, t: i64) -> &'static str {
 }
 fn op_tag(cur: Option<&ActiveOrder>, op: &OpJ) -> String {
     let o = match op {
+        OpJ::Persist {} => return "persist".to_string(),
         OpJ::RecOpen { .. } => "recOpen".to_string(),
         OpJ::RecCancel { .. } => "recCancel".to_string(),
         OpJ::CancelResp { ok, .. } => if *ok { "respOk" } else { "respErr" }.to_string(),
@@ -512,10 +516,17 @@ fn op_tag(cur: Option<&ActiveOrder>, op: &OpJ) -> String {
     };
     format!("{}>{}", pre_class(cur), o)
 }
+const NOKEY: KeyJ = KeyJ {
+    e: 0,
+    i: 0,
+    s: 0,
+    c: 0,
+};
 fn op_key(op: &OpJ) -> &KeyJ {
     match op {
         OpJ::RecOpen { o } | OpJ::Snap { o } => &o.key,
         OpJ::RecCancel { key, .. } | OpJ::CancelResp { key, .. } => key,
+        OpJ::Persist {} => &NOKEY,
     }
 }
 
@@ -523,8 +534,28 @@ fn op_key(op: &OpJ) -> &KeyJ {
 // Driving the real code
 // ---------------------------------------------------------------------------------------------
 
+/// serde_json round trip of a value; returns whether the restored value equals the original
+/// (it must on the unchanged code) and continues on the restored value
+fn roundtrip<T: Serialize + serde::de::DeserializeOwned + PartialEq>(x: &mut T) -> bool {
+    let js = serde_json::to_string(&*x).expect("state serialises");
+    let back: T = serde_json::from_str(&js).expect("state deserialises");
+    let same = back == *x;
+    *x = back;
+    same
+}
+fn persist_engine_orders(state: &mut Engine) -> bool {
+    let mut same = true;
+    for inst in state.instruments.0.values_mut() {
+        same &= roundtrip(&mut inst.orders);
+    }
+    same
+}
+
 fn apply_orders(orders: &mut Orders<ExchangeIndex, InstrumentIndex>, op: &OpJ) {
     match op {
+        OpJ::Persist {} => {
+            roundtrip(orders);
+        }
         OpJ::RecOpen { o } => orders.record_in_flight_open(&real_request(o)),
         OpJ::RecCancel { key, oid } => orders.record_in_flight_cancel(&real_cancel(key, *oid)),
         OpJ::Snap { o } => {
@@ -566,6 +597,9 @@ fn build_engine(ninst: usize) -> Engine {
 fn apply_engine(state: &mut Engine, x: &EopJ) {
     match x {
         EopJ::Ord { op } => match op {
+            OpJ::Persist {} => {
+                persist_engine_orders(state);
+            }
             OpJ::RecOpen { o } => state.record_in_flight_open(&real_request(o)),
             OpJ::RecCancel { key, oid } => state.record_in_flight_cancel(&real_cancel(key, *oid)),
             OpJ::Snap { o } => {
@@ -636,10 +670,17 @@ fn run_input(input: &InputJ) -> Ran {
             let mut obs = vec![];
             let mut tags = vec![];
             let mut nontrivial = false;
+            let mut steps = vec![];
             for op in ops {
                 tags.push(op_tag(orders.0.get(&cid(op_key(op).c)), op));
                 let before = orders.clone();
-                apply_orders(&mut orders, op);
+                if let OpJ::Persist {} = op {
+                    let same = roundtrip(&mut orders);
+                    steps.push(format!("XPersist {}", b(same)));
+                } else {
+                    apply_orders(&mut orders, op);
+                    steps.push(format!("XOp ({})", coq_op(op)));
+                }
                 nontrivial |= before != orders;
                 obs.push(coq_entries(&orders.0));
             }
@@ -647,7 +688,7 @@ fn run_input(input: &InputJ) -> Ran {
                 coq: format!(
                     "(COrders {} {} {})",
                     init_coq,
-                    list(&ops.iter().map(coq_op).collect::<Vec<_>>()),
+                    list(&steps),
                     list(&obs)
                 ),
                 nontrivial,
@@ -659,6 +700,7 @@ fn run_input(input: &InputJ) -> Ran {
             let mut obs = vec![];
             let mut tags = vec![];
             let mut nontrivial = false;
+            let mut steps = vec![];
             for x in xs {
                 match x {
                     EopJ::Ord { op } => {
@@ -675,7 +717,16 @@ fn run_input(input: &InputJ) -> Ran {
                     )),
                 }
                 let before: Vec<_> = (0..*ninst).map(|i| engine_orders(&state, i).clone()).collect();
-                apply_engine(&mut state, x);
+                if let EopJ::Ord {
+                    op: OpJ::Persist {},
+                } = x
+                {
+                    let same = persist_engine_orders(&mut state);
+                    steps.push(format!("XEPersist {}", b(same)));
+                } else {
+                    apply_engine(&mut state, x);
+                    steps.push(format!("XE ({})", coq_eop(x)));
+                }
                 let after: Vec<_> = (0..*ninst).map(|i| engine_orders(&state, i).clone()).collect();
                 nontrivial |= before != after;
                 obs.push(list(
@@ -686,7 +737,7 @@ fn run_input(input: &InputJ) -> Ran {
                 coq: format!(
                     "(CEngine {} {} {})",
                     ninst,
-                    list(&xs.iter().map(coq_eop).collect::<Vec<_>>()),
+                    list(&steps),
                     list(&obs)
                 ),
                 nontrivial,
@@ -1157,11 +1208,15 @@ fn gen_orders_history(r: &mut Rng, max_len: u64, adversarial: bool) -> InputJ {
             1 + r.below(n_cids as u64) as u32
         };
         let k = key(0, c);
+        if r.chance(1, 8) {
+            ops.push(OpJ::Persist {});
+        }
+        let last_real = ops.iter().rev().find(|o| !matches!(o, OpJ::Persist {}));
         let op = gen_op(
             r,
             &k,
             orders.0.get(&cid(c)),
-            ops.last(),
+            last_real,
             &mut now,
             adversarial,
         );
@@ -1180,6 +1235,13 @@ fn gen_engine_history(r: &mut Rng, max_len: u64, adversarial: bool) -> InputJ {
     let mut last: Option<OpJ> = None;
     let mut now = 10i64;
     for _ in 0..len {
+        if r.chance(1, 8) {
+            let p = EopJ::Ord {
+                op: OpJ::Persist {},
+            };
+            apply_engine(&mut state, &p);
+            xs.push(p);
+        }
         let x = if r.chance(1, 7) {
             // a full account snapshot: a few instruments, a few reports each (mostly open
             // reports, the same id possibly twice)
@@ -1245,6 +1307,30 @@ fn main() {
             for input in gen_table() {
                 for scale in TABLE_SCALES {
                     emit(&mut em, "table", &rescaled(&input, scale));
+                }
+                // persist / restore before and after the input under test (sub-millisecond
+                // timestamps straddling a millisecond boundary)
+                let scaled = rescaled(&input, TABLE_SCALES[1]);
+                match scaled {
+                    InputJ::Orders { init, ops } => {
+                        let mut with = vec![OpJ::Persist {}];
+                        with.extend(ops);
+                        with.push(OpJ::Persist {});
+                        emit(&mut em, "table", &InputJ::Orders { init, ops: with });
+                    }
+                    InputJ::Engine { ninst, mut xs } => {
+                        let at = xs.len() - 1;
+                        xs.insert(
+                            at,
+                            EopJ::Ord {
+                                op: OpJ::Persist {},
+                            },
+                        );
+                        xs.push(EopJ::Ord {
+                            op: OpJ::Persist {},
+                        });
+                        emit(&mut em, "table", &InputJ::Engine { ninst, xs });
+                    }
                 }
             }
             let (n_rand, n_eng, n_adv, max_len) = if thorough {
